@@ -90,19 +90,32 @@ Theorem C11_tree_reads_reference_at_every_path :
 Proof. exact tree_snapshot_reads_reference_at_every_path. Qed.
 Print Assumptions C11_tree_reads_reference_at_every_path.
 
-(* the store, read through the collection's bookkeeping, holds the reference after
-   a prefix of the batches, and everything once nothing is dirty (partial: the
-   footer tree on its own differs by pending existence-only changes, finding F10b) *)
-Theorem C11_tree_store_reads_prefix_partial :
+(* the store's footer tree READ ON ITS OWN holds the reference after a prefix of
+   the batches, and the whole reference once nothing is pending - up to the
+   existence of empty child collections (fn_reads_mod: every key agrees at every
+   footer node, every child footer belongs to a child of the reference; a child
+   of the reference without a footer holds no key at any depth).  The weakening
+   is forced by known finding F10b. *)
+Theorem C11_tree_store_reads_prefix :
   forall (fm : bytes -> value -> bytes -> value) (c : cfg) (ls : list clabel) (cs : cst),
     has_ll c = true ->
     Forall (fun b => tb_good b = true) (cbatches ls) ->
     crun fm c (cinit c) ls = Some cs ->
-    exists a ca, a <= length (cbatches ls) /\
-                 reads_as fm (assemble ca [] (Some (c_store cs)) true)
-                          (ref_tree (firstn a (cbatches ls))).
-Proof. exact tree_store_reads_prefix_partial. Qed.
-Print Assumptions C11_tree_store_reads_prefix_partial.
+    exists a, a <= length (cbatches ls) /\
+              fn_reads_mod fm (c_store cs) (ref_tree (firstn a (cbatches ls))).
+Proof. exact tree_store_reads_prefix. Qed.
+Print Assumptions C11_tree_store_reads_prefix.
+
+Theorem C11_tree_drained_store_is_reference :
+  forall (fm : bytes -> value -> bytes -> value) (c : cfg) (ls : list clabel) (cs : cst),
+    has_ll c = true ->
+    Forall (fun b => tb_good b = true) (cbatches ls) ->
+    crun fm c (cinit c) ls = Some cs ->
+    t_persister (c_t cs) = PIdle ->
+    t_top (c_t cs) = None -> t_mid (c_t cs) = None -> t_base (c_t cs) = None ->
+    fn_reads_mod fm (c_store cs) (ref_tree (cbatches ls)).
+Proof. exact tree_drained_store_is_reference. Qed.
+Print Assumptions C11_tree_drained_store_is_reference.
 
 (* the hand-over of the pinned commit (only the root of the stack given to the
    persister got the current lower-level snapshot): refuted - finding F28 *)
